@@ -11,6 +11,26 @@ CHECKS = {
         text="Generated-input search: typed DSL programs x boundary inputs are executed on the real evaluator and on a 60-line reference interpreter that shares no code with the repo; any differing outcome is a violation. Exploration only: no absence claim beyond the generated / enumerated cases.",
         note="Trusts the reference interpreter (self-tested against the suite's expectations), Python's own comparison semantics, and that generated inputs are type-compatible.",
         ref="4.2"),
+    "C03": dict(
+        technique="property-based testing: generated + enumerated weight vectors at boundary grid points against an exact rational partition model; hash position substituted (canary) and black-box located by bisection",
+        text="Generated-input search over weight vectors x grid points; oracle is exact Fraction arithmetic over the 2^32 grid. Path B locates real ids' positions black-box through the DSL so no hash scheme is assumed. Exploration only.",
+        note="Trusts Python Fractions and the stated 1e-12*total ambiguity zone (empty when the double arithmetic is provably exact).",
+        ref="4.3"),
+    "C12": dict(
+        technique="property-based testing: differential against an independent re-implementation of the published MD5/UTF-8 scheme, plus RFC 1321 known-answer vectors",
+        text="Every generated (program, inputs) assignment is recomputed from the property's description alone (salt + str(values) in alphabetical field order, MD5, first 32 bits, exact partition) and compared with the evaluator. Exploration only.",
+        note="Trusts hashlib.md5 (checked against RFC 1321 vectors at start-up) and the partition model of C03.",
+        ref="4.12"),
+    "C16": dict(
+        technique="property-based testing: algebraic laws (weights == cum_weights, unweighted == equal integer weights), identity/immutability checks, documented error classes, seeded chi-square for the random branch",
+        text="Generated argument tuples, well-formed and malformed, checked against laws that need no reference implementation. Exploration only.",
+        note="Trusts the docstring / random.choices contract for which errors are documented; chi-square at 1e-9 with seeded random.",
+        ref="4.16"),
+    "C18": dict(
+        technique="property-based testing + dense grid enumeration against the textbook formulas and statistics.NormalDist quantile",
+        text="Grid (n log-grid x p x confidence x method) and generated floats; oracles: transcription of Agresti-Coull / Wald with the module's own z, monotonicity along grid lines, symmetry and conservativeness of probit vs the exact normal quantile. Exploration only.",
+        note="Trusts statistics.NormalDist.inv_cdf and the stated float tolerances (1e-12 relative; propagated argument rounding for symmetry).",
+        ref="4.18"),
 }
 
 NOT_YET = "check not built yet (work in progress; see DESIGN.md for the planned generator and oracle)"
